@@ -8,6 +8,20 @@ from hypothesis import strategies as st
 
 from vlib.core import Sub, HarnessError
 from vlib import refmath as rm
+from vlib import vmfgen
+
+DISP_CFG = vmfgen.GenConfig(displacements=True, disp_weight=0.6, prism_weight=0.2, strata=False, membership=False,
+                            multiblend=False, nasty=0.0, max_sides=3, max_disp_power=2, tiny_negative=False)
+
+
+def _sane_solid(d):
+    """Texture scale 0 is not a usable axis (UVAxis.localise divides by it): keep |scale| >= 1e-3."""
+    for side in d.get('sides', []):
+        for ax in ('uaxis', 'vaxis'):
+            if side.get(ax) and abs(side[ax][4]) < 1e-3:
+                side[ax] = side[ax][:4] + [0.25]
+    d['vis_shown'] = True
+    return d
 
 PROPERTY = 'C17'
 LEVEL = 'exploration'
@@ -199,6 +213,7 @@ def nested_inst():
 def template():
     return st.fixed_dictionaries({
         'brushes': st.lists(prism(), max_size=3),
+        'dsolids': st.lists(vmfgen.solid_descs(DISP_CFG).map(_sane_solid), max_size=2),
         'ents': st.lists(st.one_of(ent_desc(), ent_desc(), ent_desc(), nested_inst()), max_size=5),
     })
 
@@ -247,7 +262,13 @@ def build_template(tdesc):
     vmf = VMF()
     for b in tdesc['brushes']:
         vmf.add_brush(build_prism(vmf, b))
-    faces = [side for br in vmf.brushes for side in br.sides]
+    for d in tdesc.get('dsolids', []):
+        d = dict(d)
+        d.pop('id', None)
+        d['sides'] = [dict(sd, id=-1) for sd in d.get('sides', [])] if 'sides' in d else None
+        if d['sides'] is None:
+            del d['sides']
+        vmf.add_brush(vmfgen.build_solid(vmf, d))
     pending_sidelists = []
     for e in tdesc['ents']:
         keys = {'classname': e['cls'], 'origin': fmt_vec(e['origin']), 'angles': fmt_vec(e['angles'])}
@@ -292,8 +313,21 @@ def export_text(vmf) -> str:
     return buf.getvalue()
 
 
+def snap_disp(side):
+    if not side.is_disp:
+        return None
+    size = side.disp_size
+    verts = []
+    for y in range(size):
+        for x in range(size):
+            v = side[x, y]
+            verts.append([list(v.normal), v.distance, list(v.offset), list(v.offset_norm), v.alpha])
+    return {'power': side.disp_power, 'pos': list(side.disp_pos), 'elev': side.disp_elevation, 'verts': verts}
+
+
 def snap_side(side):
     return {
+        'disp': snap_disp(side),
         'id': side.id, 'mat': side.mat,
         'planes': [[p.x, p.y, p.z] for p in side.planes],
         'u': [side.uaxis.x, side.uaxis.y, side.uaxis.z, side.uaxis.offset, side.uaxis.scale],
@@ -392,6 +426,19 @@ def check_side(ctx, old, new, R, T, where):
         if not close_vec(got, want):
             ctx.fail('geometry', f'{where} plane point {j}: got {got}, want {op_} rotated+offset = {want}')
             return
+    od = old['disp']
+    if not ctx.check((od is not None) == bool(new.is_disp), 'displacement', f'{where}: displacement presence changed'):
+        return
+    if od is not None:
+        nd = snap_disp(new)
+        ok = nd['power'] == od['power'] and nd['elev'] == od['elev'] and close_vec(nd['pos'], rm.transform(od['pos'], R, T))
+        ctx.check(ok, 'displacement', f'{where}: displacement power/elevation/start position: {od["pos"]} -> {nd["pos"]}')
+        for k, (ov, nv) in enumerate(zip(od['verts'], nd['verts'])):
+            good = (close_vec(nv[0], rm.vec_mat(ov[0], R)) and nv[1] == ov[1] and close_vec(nv[2], rm.vec_mat(ov[2], R))
+                    and close_vec(nv[3], rm.vec_mat(ov[3], R)) and nv[4] == ov[4])
+            if not good:
+                ctx.fail('displacement', f'{where} vertex {k}: template {ov} became {nv}; vectors must be the originals rotated')
+                return
     # texture lock: texture coordinate of the moved point equals that of the original point
     for axis_name, old_ax, new_ax in (('u', old['u'], new.uaxis), ('v', old['v'], new.vaxis)):
         ctx.check(new_ax.scale == old_ax[4], 'texture_lock', f'{where} {axis_name}axis scale changed')
@@ -399,7 +446,11 @@ def check_side(ctx, old, new, R, T, where):
             before = rm.dot(op_, old_ax[:3]) / old_ax[4] + old_ax[3]
             moved = rm.transform(op_, R, T)
             after = rm.dot(moved, [new_ax.x, new_ax.y, new_ax.z]) / new_ax.scale + new_ax.offset
-            if abs(before - after) > 1e-4 + 1e-9 * abs(before):
+            new_u = [new_ax.x, new_ax.y, new_ax.z]
+            # magnitude of the terms that cancel in the two expressions (coordinates may be huge)
+            mag = (rm.vlen(op_) * rm.vlen(old_ax[:3]) + rm.vlen(moved) * rm.vlen(new_u)) / abs(new_ax.scale) \
+                + abs(old_ax[3]) + abs(new_ax.offset)
+            if abs(before - after) > 1e-4 + 1e-9 * mag:
                 ctx.fail('texture_lock', f'{where} {axis_name}: texture coordinate at {op_} was {before!r}, is {after!r} after the move')
                 return
 
@@ -554,6 +605,8 @@ def execute(desc, ctx):
         ctx.label('arbitrary_rotation')
     if max(used.values()) >= 2:
         ctx.label('repeat_collapse')
+    if any(sd.get('disp') for t in desc['templates'] for d in t.get('dsolids', []) for sd in d.get('sides', [])):
+        ctx.label('displacement')
     if any(e['cls'] == 'func_instance' and e['fixups'] for t in desc['templates'] for e in t['ents']):
         ctx.label('nested_instance_with_fixups')
     for t in desc['templates']:
@@ -702,8 +755,8 @@ def _has_cycle(desc) -> bool:
 
 
 SUBCHECKS = [
-    Sub('collapse_one', execute, strategy=strategy, quick=1200, thorough=60000, floor=30,
-        must_hit=('arbitrary_rotation', 'repeat_collapse', 'nested_instance_with_fixups')),
+    Sub('collapse_one', execute, strategy=strategy, quick=800, quick_shards=8, thorough=60000, floor=30,
+        must_hit=('arbitrary_rotation', 'repeat_collapse', 'nested_instance_with_fixups', 'displacement')),
     Sub('collapse_all', execute_all, strategy=graph_strategy, quick=600, thorough=30000, floor=20,
         must_hit=('cyclic_graph', 'finishes', 'exceeds_limit')),
 ]
